@@ -16,14 +16,15 @@ import shutil
 import numpy as np
 
 from harness import alpha, compare, core, gamma, shims, tlc, util
+from harness import keys as hkeys
 
 NOLIMIT = 99
 
 
 def models(tier):
     if tier == "quick":
-        return [("meta", {"Alphabet": '{"a","b"}', "MaxFields": 3, "MaxLev": 3, "MaxBox": 2})]
-    return [("meta", {"Alphabet": '{"a","b","c"}', "MaxFields": 4, "MaxLev": 4, "MaxBox": 3})]
+        return [("meta", {"Alphabet": '{"a","b","a_2"}', "MaxFields": 3, "MaxLev": 3, "MaxBox": 2})]
+    return [("meta", {"Alphabet": '{"a","b","c","a_2"}', "MaxFields": 4, "MaxLev": 4, "MaxBox": 3})]
 
 
 def rand_layout(rng, nb, maxfile=3):
@@ -53,7 +54,7 @@ def run_scenario(chk, sc, cfgseed, ndims):
     cfg = gamma.Config.draw(rng, ndims=ndims, payload=rng.choice(["tame", "wild"]), numfmt="g6" if cfgseed % 4 == 0 else "repr")
     classes = [[rng.choice([1, 2]) for _ in range(nb)] for nb in sc["nbs"]]
     layouts = [rand_layout(rng, nb) for nb in sc["nbs"]]
-    ap = gamma.make_ap("A", sc["names"], classes, layouts, ndims=ndims, time=cfg.time)
+    ap = gamma.make_ap("A", hkeys.concrete_names(sc["names"], cfgseed), classes, layouts, ndims=ndims, time=cfg.time)
     if cfgseed % 5 == 0:
         # an index space that does not start at 0 (the domain boxes of the header give both corners)
         gamma.shift_indices(ap, [[-8, -3, -16], [-4, 0, -1], [5, -2, 0]][(cfgseed // 5) % 3])
@@ -82,17 +83,14 @@ def run_scenario(chk, sc, cfgseed, ndims):
         return "limit_level=%r above the finest level %d was accepted" % (lim, sc["nlev"] - 1)
     # ---- field keys
     keys = list(pck.fields.keys())
-    if len(keys) != len(exp["fields"]):
-        return "exposes %d fields, header states %d" % (len(keys), len(exp["fields"]))
-    if len(set(keys)) != len(keys):
-        return "field keys are not unique: %r" % keys
-    for i, (k, f) in enumerate(zip(keys, exp["fields"])):
+    v = hkeys.keys_ok(H["fields"], keys)           # KeysOk of FieldKeys.tla on the observed keys
+    if v:
+        return v
+    if len(keys) != exp["nfields"]:
+        return "exposes %d fields, header states %d" % (len(keys), exp["nfields"])
+    for i, k in enumerate(keys):
         if pck.fields[k] != i:
             return "field key %r maps to component %r, expected %d" % (k, pck.fields[k], i)
-        if not f["repeat"] and k != f["name"]:
-            return "field %d exposed as %r, header states %r" % (i, k, f["name"])
-        if f["repeat"] and not k.startswith(f["name"]):
-            return "repeated field %d exposed as %r, header states %r" % (i, k, f["name"])
     # ---- global metadata
     L = exp["limit"]
     checks = [("ndims", pck.ndims == H["ndims"]),
@@ -177,7 +175,7 @@ def run(chk, replay):
         cfgseed = chk.rng.randrange(1 << 30)
         v = run_scenario(chk, sc, cfgseed, ndims)
         sigs = util.sig_str(sc["sig"], ndims)
-        triv = sc["sig"] == [1, "nolimit", "full", "distinct"]
+        triv = sc["sig"][:4] == [1, "nolimit", "full", "distinct"]
         chk.executed(sigs, not triv, sample={k: sc[k] for k in ("names", "nlev", "nbs", "limit", "mode")})
         chk.traces += 1
         if v:
